@@ -265,10 +265,11 @@ def run(ck, prog, tier):
         raise AnalysisError('clip_segment signature changed')
     ck.saw('functions', fn.qualname + ' @ ' + fn.loc())
     body = fn.body()
-    loops = [s for s in body if isinstance(s, ast.While)]
+    loops = [s for s in body if isinstance(s, (ast.While, ast.For))]
     if len(loops) != 1:
         raise AnalysisError('clip_segment: expected exactly one top-level loop')
     loop = loops[0]
+    counted = isinstance(loop, ast.For)      # `for k in range(...)`: a fixed number of passes
     it = Interp(prog)
     it.stack.append(fn)
     seg0 = Tup((Tup((X1, Y1), 'list'), Tup((X2, Y2), 'list')), 'list')
@@ -296,17 +297,33 @@ def run(ck, prog, tier):
     if set(roles) != {'x1', 'y1', 'x2', 'y2'}:
         raise AnalysisError('clip_segment: working coordinates not identified in the prologue')
     counters = [n for n, v in st0.env.items() if isinstance(v, Sym) and v.is_const()]
-    if isinstance(loop.test, ast.Constant) and loop.test.value is True:
-        pass
+    passes = None
+    if counted:
+        # the pass values: range(...) with constant arguments (module constants resolved)
+        if loop.orelse or not isinstance(loop.target, ast.Name):
+            raise AnalysisError('clip_segment: for-loop with else / a structured target')
+        vals = list(it.ev(loop.iter, st0))
+        rng = vals[0][0] if len(vals) == 1 and not vals[0][1].raised else None
+        items = it.literal_items(rng) if rng is not None else None
+        if items is None or not all(isinstance(x, Sym) and x.is_const() for x in items):
+            raise AnalysisError('clip_segment: the loop does not range over a literal range(...)')
+        passes = [x.const_value() for x in items]
+        st0 = st0.copy()
+        st0.env[loop.target.id] = ITER
+        iter_init = passes[0] if passes else 0
+        counter = None
     else:
-        raise AnalysisError('clip_segment loop is not `while True`')
-    st0 = st0.copy()
-    iter_init = st0.env[counters[0]].const_value() if counters else 0
-    for c in counters:
-        st0.env[c] = ITER if len(counters) == 1 else st0.env[c]
-    if len(counters) != 1:
-        raise AnalysisError('clip_segment: iteration counter not identified (%s)' % counters)
-    counter = counters[0]
+        if isinstance(loop.test, ast.Constant) and loop.test.value is True:
+            pass
+        else:
+            raise AnalysisError('clip_segment loop is not `while True`')
+        st0 = st0.copy()
+        iter_init = st0.env[counters[0]].const_value() if counters else 0
+        for c in counters:
+            st0.env[c] = ITER if len(counters) == 1 else st0.env[c]
+        if len(counters) != 1:
+            raise AnalysisError('clip_segment: iteration counter not identified (%s)' % counters)
+        counter = counters[0]
     # the working segment is the variable the loop returns as second element
     seg_names = {r.value.elts[1].id for r in ast.walk(fn.node)
                  if isinstance(r, ast.Return) and isinstance(r.value, ast.Tuple)
@@ -331,7 +348,7 @@ def run(ck, prog, tier):
             o2 = {('x', s) for s in outside(rx, 'p2')} | {('y', s) for s in outside(ry, 'p2')}
             udesc = desc
             desc = desc + wit
-            for big in (False, True):
+            for big in ((False,) if counted else (False, True)):
                 case = mk_case(big)
                 it.hooks = case
                 outs = list(it.exec_block(loop.body, st0))
@@ -431,11 +448,12 @@ def run(ck, prog, tier):
                               'division by %r at line %d can be zero in order type [%s]'
                               % (nt[1], nt[2], desc), fn.loc(loop), key='clip_segment::division')
                 # counter
-                okc = isinstance(env.get(counter), Sym) and (env[counter] - ITER).is_const() \
-                    and (env[counter] - ITER).const_value() >= 1
-                ck.ob('C08-D6-bounded', desc + ' counter', okc,
-                      'the iteration counter is not incremented by a clipping step', fn.loc(loop),
-                      key='clip_segment::counter')
+                if not counted:
+                    okc = isinstance(env.get(counter), Sym) and (env[counter] - ITER).is_const() \
+                        and (env[counter] - ITER).const_value() >= 1
+                    ck.ob('C08-D6-bounded', desc + ' counter', okc,
+                          'the iteration counter is not incremented by a clipping step',
+                          fn.loc(loop), key='clip_segment::counter')
                 if len(ck.samples) < 5:
                     ck.sample({'order_type': desc, 'new_endpoint': [repr(nx), repr(ny)] if ok_shape
                                else None})
@@ -487,9 +505,16 @@ def run(ck, prog, tier):
     # segment is returned as accepted.  The failsafe test does not depend on the geometry, so a
     # sample of the step cases is enough.
     sample = step_cases[::max(1, len(step_cases) // 24)][:24] if step_cases else []
+    if counted:
+        ck.ob('C08-D6-bounded', 'passes of the counted loop', len(passes) >= 4,
+              'the clipping loop makes %d pass(es); exact Cohen-Sutherland clipping can need 4 '
+              'clipping steps (two per end point), so a segment that needs them is handed back '
+              'partly clipped' % len(passes), fn.loc(loop), key='clip_segment::failsafe-too-early')
     for k in (1, 2, 3):
         for rx, ry, d in sample:
-            case = ClipCase([(tx, rx), (ty, ry)], False, iter_init + k)
+            if counted and k >= len(passes):
+                continue
+            case = ClipCase([(tx, rx), (ty, ry)], False, passes[k] if counted else iter_init + k)
             it.hooks = case
             outs = list(it.exec_block(loop.body, st0))
             ok = len(outs) == 1 and outs[0].kind in ('fall', 'continue')
@@ -499,6 +524,40 @@ def run(ck, prog, tier):
                   'exact Cohen-Sutherland clipping can need, so a partly clipped segment is '
                   'accepted' % (k, [o.kind for o in outs]), fn.loc(loop),
                   key='clip_segment::failsafe-too-early')
+    if counted and len(passes) == 4:
+        # four passes = four clips at most, with nothing tested after the last one: a segment
+        # that needed all four is now clipped, so what follows the loop has to accept a segment
+        # whose end points are inside (with five or more passes the fifth pass does that, and
+        # the code after the loop is only the failsafe)
+        epilogue = body[body.index(loop) + 1:]
+        n_ep = 0
+        for rx in axes:
+            for ry in axes:
+                o1 = {('x', s_) for s_ in outside(rx, 'p1')} | {('y', s_) for s_ in outside(ry, 'p1')}
+                o2 = {('x', s_) for s_ in outside(rx, 'p2')} | {('y', s_) for s_ in outside(ry, 'p2')}
+                if o1 or o2:
+                    # would still need clipping: anything goes (failsafe).  Both end points
+                    # outside one side: with the end points clipped one after the other (the
+                    # first until it is inside, then the second) this cannot be the state after
+                    # four clips - the fourth clip puts the second end point between two points
+                    # of the rectangle - so no reject test is demanded here either.
+                    continue
+                it.hooks = ClipCase([(tx, rx), (ty, ry)], False, passes[-1])
+                outs = list(it.exec_block(epilogue, st0))
+                n_ep += 1
+                d = 'x: %s | y: %s' % (describe(rx), describe(ry))
+                ok = len(outs) == 1 and outs[0].kind == 'return' and isinstance(outs[0].value, Tup) \
+                    and len(outs[0].value.items) == 2 and \
+                    outs[0].value.items[0] == (FALSE if (o1 & o2) else TRUE)
+                ck.ob('C08-D3-%s' % ('reject' if (o1 & o2) else 'accept'), 'after the last pass: ' + d,
+                      ok, 'after the fourth clipping pass a segment %s [%s] is answered %s: the '
+                      'code after the loop must make the accept / reject decision that the '
+                      'while-form makes at the start of its next iteration'
+                      % ('outside one side with both end points' if (o1 & o2) else
+                         'with both end points inside', d,
+                         [(o.kind, repr(o.value)[:60]) for o in outs]),
+                      fn.loc(loop), key='clip_segment::after-last-pass')
+        ck.floor('order types judged after the last pass', n_ep, 100)
     n_steps = counts['steps']
     it.stack.pop()
     ck.floor('order-type pairs', n_cases, 1000)
